@@ -57,6 +57,13 @@ type Writer struct {
 	revs          int
 	out           Built
 	Version       string
+	// Hook, when set, sees every value just before it is written: kind is "obj"
+	// (num = object number; for streams the dictionary incl. /Length, /Filter,
+	// /DecodeParms), "trailer", or "raw" (o = Str holding the encoded stream
+	// bytes). It returns the value to write. Fault injection only.
+	Hook func(kind string, num int, o Obj) Obj
+	// PrevHook may replace the /Prev offset (fault injection: cyclic chains).
+	PrevHook func(rev, xrefOff, prev int) int
 }
 
 func NewWriter(st Style, r *sim.Rand, root Ref, info *Ref, firstFreeNum int) *Writer {
@@ -262,7 +269,15 @@ func (w *Writer) Commit(rs RevSpec) []byte {
 			d = append(d, KV{"Info", *w.out.Info})
 		}
 		if w.revs > 0 {
-			d = append(d, KV{"Prev", w.prevXRef})
+			pv := w.prevXRef
+			if w.PrevHook != nil {
+				pv = w.PrevHook(w.revs, xrefOff, pv)
+			}
+			d = append(d, KV{"Prev", pv})
+		} else if w.PrevHook != nil {
+			if pv := w.PrevHook(0, xrefOff, -1); pv >= 0 {
+				d = append(d, KV{"Prev", pv})
+			}
 		}
 		st := &Stream{Dict: d, Plain: data.Bytes()}
 		switch rs.XRefFlate {
@@ -308,7 +323,20 @@ func (w *Writer) Commit(rs RevSpec) []byte {
 			trailer = append(trailer, KV{"Info", *w.out.Info})
 		}
 		if w.revs > 0 {
-			trailer = append(trailer, KV{"Prev", w.prevXRef})
+			pv := w.prevXRef
+			if w.PrevHook != nil {
+				pv = w.PrevHook(w.revs, xrefOff, pv)
+			}
+			trailer = append(trailer, KV{"Prev", pv})
+		} else if w.PrevHook != nil {
+			if pv := w.PrevHook(0, xrefOff, -1); pv >= 0 {
+				trailer = append(trailer, KV{"Prev", pv})
+			}
+		}
+		if w.Hook != nil {
+			if t, ok := w.Hook("trailer", 0, trailer).(Dict); ok {
+				trailer = t
+			}
 		}
 		w.buf.WriteString("trailer" + w.eol())
 		w.buf.Write(Serialise(trailer, w.st, w.r))
@@ -376,6 +404,9 @@ func (w *Writer) writeIndirect(num, gen int, o Obj) {
 	fmt.Fprintf(&w.buf, "%d %d obj", num, gen)
 	st, isStream := o.(*Stream)
 	if !isStream {
+		if w.Hook != nil {
+			o = w.Hook("obj", num, o)
+		}
 		if w.st.Tight && !needsSepBefore(o) && w.r.Bool() {
 			// "1 0 obj<<...>>" is legal
 		} else {
@@ -408,6 +439,15 @@ func (w *Writer) writeIndirect(num, gen int, o Obj) {
 	} else {
 		d = append(d, extra...)
 	}
+	raw := st.Raw
+	if w.Hook != nil {
+		if hd, ok := w.Hook("obj", num, d).(Dict); ok {
+			d = hd
+		}
+		if hr, ok := w.Hook("raw", num, Str{B: raw}).(Str); ok {
+			raw = hr.B
+		}
+	}
 	w.buf.WriteString(sim.Pick(w.r, []string{" ", w.eol()}))
 	w.buf.Write(Serialise(d, w.st, w.r))
 	w.buf.WriteString(sim.Pick(w.r, []string{"", " ", w.eol()}))
@@ -417,7 +457,7 @@ func (w *Writer) writeIndirect(num, gen int, o Obj) {
 	} else {
 		w.buf.WriteString("\r\n")
 	}
-	w.buf.Write(st.Raw)
+	w.buf.Write(raw)
 	w.buf.WriteString(sim.Pick(w.r, []string{w.eol(), "\n", "\r\n"}))
 	w.buf.WriteString("endstream" + w.eol() + "endobj" + w.eol())
 }
